@@ -564,3 +564,25 @@ M2('c18-hoisted-locals-appendleft', 'C18', 'R3', [
 """},
     {'file': WS, 'old': "            self._messages.append(received_event)\n", 'new': "            messages.appendleft(received_event)\n"},
 ])
+
+
+# ------------------------------------------------------------------ "refactoring + break" (second preserving wave)
+# a local bound once to the receiver (`receiver = self._buffered_receiver`) is read by R4; break: the stop moved behind the validation
+M2('c18-k2-receiver-alias-stop-after-validation', 'C18', 'R4', [
+    {'file': WS, 'old': "        await self._buffered_receiver.stop()\n\n        if code is None:",
+     'new': "        receiver = self._buffered_receiver\n\n        if code is None:"},
+    {'file': WS, 'old': "        if self.closed:\n            return\n\n        response = {'type': EventType.WS_CLOSE, 'code': code}",
+     'new': "        await receiver.stop()\n        if self.closed:\n            return\n\n        response = {'type': EventType.WS_CLOSE, 'code': code}"}])
+# an optional parameter nobody passes evaluates as its default; break: the default skips the await
+M2('c18-k2-stop-inert-wait-flag-default-false', 'C18', 'R4', [
+    {'file': WS, 'old': "    async def stop(self) -> None:", 'new': "    async def stop(self, _wait: bool = False) -> None:"},
+    {'file': WS, 'old': "        try:\n            await self._pump_task\n        except asyncio.CancelledError:\n            pass\n\n        self._pump_task = None",
+     'new': "        if _wait:\n            try:\n                await self._pump_task\n            except asyncio.CancelledError:\n                pass\n\n        self._pump_task = None"}])
+# the status property with a snapshot local (evaluated over the cells), wrong connective
+M('c18-k2-closed-property-snapshot-and-for-or', 'C18', 'R9', WS,
+  "        return (\n            self._state == _WebSocketState.CLOSED\n            or self._buffered_receiver.client_disconnected\n        )",
+  "        disconnected = self._buffered_receiver.client_disconnected\n        return self._state == _WebSocketState.CLOSED and disconnected",
+  also=('C17',))
+# `notified = waiter.done()` read as a fresh snapshot; break: wrong polarity
+M('c18-k2-done-snapshot-local-wrong-polarity', 'C18', 'R6', WS,
+  "            if not pop_message_waiter.done():", "            notified = pop_message_waiter.done()\n            if notified:", also=('C17',))
